@@ -30,6 +30,7 @@ class GenOpts:
         self.local_data = True
         self.hist_targets = True
         self.nested_history = False
+        self.in_conds = True         # In(state) predicates in conditions
         self.history_weight = 2       # out of 5: probability that a compound/parallel state gets a history
         self.two_histories = True     # a state may own a shallow and a deep history
         self.hist_target_weight = 1   # how often history ids are repeated in the target pool
@@ -69,8 +70,8 @@ def int_exprs(draw, vars_, depth=0):
 
 
 @st.composite
-def bool_exprs(draw, vars_, state_ids, depth=0, allow_data=True):
-    opts = [('in', 4)]
+def bool_exprs(draw, vars_, state_ids, depth=0, allow_data=True, allow_in=True):
+    opts = [('in', 4)] if allow_in else []
     if vars_ and allow_data:
         opts.append(('cmp', 4))
     if depth < 1:
@@ -83,10 +84,10 @@ def bool_exprs(draw, vars_, state_ids, depth=0, allow_data=True):
         op = draw(st.sampled_from(['<', '==', '!=', '>=', '<=', '>']))
         return (op, draw(int_exprs(vars_, 1)), draw(int_exprs(vars_, 1)))
     if k == 'not':
-        return ('not', draw(bool_exprs(vars_, state_ids, depth + 1, allow_data)))
+        return ('not', draw(bool_exprs(vars_, state_ids, depth + 1, allow_data, allow_in)))
     if k in ('and', 'or'):
-        return (k, draw(bool_exprs(vars_, state_ids, depth + 1, allow_data)),
-                draw(bool_exprs(vars_, state_ids, depth + 1, allow_data)))
+        return (k, draw(bool_exprs(vars_, state_ids, depth + 1, allow_data, allow_in)),
+                draw(bool_exprs(vars_, state_ids, depth + 1, allow_data, allow_in)))
     return (k,)
 
 
@@ -123,7 +124,7 @@ def exec_blocks(draw, o, vars_, state_ids, label, depth=0, maxn=3):
             branches = []
             for bi in range(nb):
                 last_else = (bi == nb - 1 and nb > 1 and draw(st.booleans()))
-                c = None if last_else else draw(bool_exprs(vars_ if o.data else [], state_ids, 1))
+                c = None if last_else else draw(bool_exprs(vars_ if o.data else [], state_ids, 1, True, o.in_conds))
                 branches.append((c, draw(exec_blocks(o, vars_, state_ids, label + 'i', depth + 1))))
             out.append(If(branches))
         elif k == 'fault':
@@ -315,11 +316,11 @@ def charts(draw, o=None, datamodel='lua'):
             else:
                 t.events = []
             if o.conds and weighted(draw, [(0, 5), (1, 3)]) == 1:
-                t.cond = draw(bool_exprs(vars_, ids, 0))
+                t.cond = draw(bool_exprs(vars_, ids, 0, True, o.in_conds))
             elif ek == 'none':
                 # an unconditional eventless transition easily loops; guard most of them
                 if draw(st.integers(0, 3)) != 0:
-                    t.cond = draw(bool_exprs(vars_, ids, 0))
+                    t.cond = draw(bool_exprs(vars_, ids, 0, True, o.in_conds))
             ntg = weighted(draw, [(1, 6), (2, 2 if o.multi_target else 0), (0, 1 if o.targetless else 0)])
             if ntg >= 1:
                 first = draw(st.sampled_from(all_target_ids))
